@@ -538,7 +538,11 @@ func slotModel(shared bool) porcupine.Model {
 	}
 }
 
-func c09Conc(cc c09Cell, env *Env) CellResult {
+func c09Conc(cc c09Cell, env *Env) CellResult { return c09ConcAs("C09", cc, env) }
+
+// c09ConcAs is the concurrent collision exploration reported under the given property id (C08's key set is
+// "partly hash-colliding" too).
+func c09ConcAs(prop string, cc c09Cell, env *Env) CellResult {
 	res := CellResult{Exhaustive: true, Outcomes: map[string]int{}}
 	keys := c09Keys()[:2]
 	model := slotModel(cc.Backend != "SyncMap")
@@ -639,7 +643,7 @@ func c09Conc(cc c09Cell, env *Env) CellResult {
 		}
 
 		check := func(r *vsched.Result) []Violation {
-			sig := "C09 " + cc.Backend + " concurrent-collision"
+			sig := prop + " " + cc.Backend + " concurrent-collision"
 
 			if r.Deadlock || r.Panic != nil {
 				return []Violation{{Signature: sig + " fatal", Detail: fmt.Sprintf("deadlock=%v panic=%v %s", r.Deadlock, r.Panic, r.PanicStack)}}
